@@ -112,6 +112,36 @@ def run(args) -> int:
             chk.violation(f'closure-run:{n}:exception', f"{n}: literal set {rec['lits']} on {rec['subject']} raised {rec['error']}",
                           dict(kind='closure_case', **rec))
             continue
+        if rec.get('cross'):
+            # literals of one subject at two worlds: the branch closes iff the literals of ONE world match a pattern
+            closes_v, reads_v = model_closes[n]
+            def idx_of(lits):
+                l = lits_of(dict(lits=lits, has_des=rec['has_des']))
+                return (order_des.index((l['lpp'], l['lpm'], l['lnp'], l['lnm'])) if L['has_designation']
+                        else order_nod.index((l['lpp'], l['lnp'])))
+            i0, i1 = idx_of(rec['lits0']), idx_of(rec['lits1'])
+            want = closes_v[i0] or closes_v[i1]
+            if rec['subject'] == 'exist':
+                want = want or any(neg for neg, _ in rec['lits'])         # ~E!a closes at any world
+            if rec['closed'] != want or rec['branches'] != 1:
+                chk.violation(f'closure-run:{n}:cross-world:{rec["subject"]}',
+                              f"{n}: {rec['subject']} literals {rec['lits0']} at world 0 and {rec['lits1']} at world 1: "
+                              f"branch closed={rec['closed']}, per-world closure patterns say {want}",
+                              dict(kind='closure_case', expected_closed=want, **rec))
+            elif not rec['closed'] and rec['subject'] in ('atom', 'pred'):
+                for wv, ix in zip(rec.get('values') or [], (i0, i1)):
+                    if not reads_v[ix] or wv != reads_v[ix][0]:
+                        chk.violation(f'closure-run:{n}:cross-world:read-value',
+                                      f"{n}: {rec['subject']} literals {rec['lits0']}@0 {rec['lits1']}@1: model reads {rec.get('values')}, "
+                                      f"modelled read-off {reads_v[i0]} / {reads_v[i1]}", dict(kind='closure_case', **rec))
+                        break
+            continue
+        if rec.get('subject') == 'identity-twin':
+            if not rec.get('closed'):
+                chk.violation(f'closure-run:{n}:identity-twin',
+                              f"{n}: ~ c = c with two equal but distinct constant objects (distinct={rec.get('twin_distinct_objects')}): closed={rec.get('closed')}",
+                              dict(kind='closure_case', **rec))
+            continue
         if rec.get('special'):
             neg = rec['lits'][0][0]
             if rec['closed'] != neg:
